@@ -144,9 +144,10 @@ def build_stmt(feat, marker, rnd, macros=None, eol="\n", ref_id=None, kv_ref=Non
         kvs = list(extra_kvs)
     ref_kv_pos = None
     if kv_ref is not None:
-        kind, val, pos = kv_ref
+        kind, val, pos = kv_ref[:3]
+        keytxt = kv_ref[3] if len(kv_ref) > 3 else "ref"
         pos = min(pos, len(kvs))
-        kvs.insert(pos, "ref = %s" % val)
+        kvs.insert(pos, "%s = %s" % (keytxt, val))
         ref_kv_pos = pos
     s_ref_val_off = None
     if kvs:
@@ -164,7 +165,7 @@ def build_stmt(feat, marker, rnd, macros=None, eol="\n", ref_id=None, kv_ref=Non
     ref_msg = None
     if feat["ref"] == "valid":
         ref_msg = ref_id if ref_id is not None else rnd.choice([0, 1, 7, 4294967295, rnd.randrange(1, 100000)])
-        pref = "[ref: %d] " % ref_msg
+        pref = ("[ref: %d] " % ref_msg) if (rnd.random() > 0.15 or ref_msg > 99999) else ("[ref: %0*d] " % (rnd.choice([2, 5, 10]), ref_msg))
     elif feat["ref"] == "nearmiss":
         pref = rnd.choice(["[ref:12] ", "[Ref: 12] ", "[ref: 12 ] ", " [ref: 12] ", "[ref: 99999999999] ",
                            "[ref: 4294967296] ", "[ref: -1] ", "[ref: 1x] ", "ref: 12 ", "[ref:  12] ", "[ref: ] ",
@@ -199,7 +200,7 @@ def build_stmt(feat, marker, rnd, macros=None, eol="\n", ref_id=None, kv_ref=Non
         elif tag == "msg":
             st.msg = off
         if ref_kv_pos is not None and tag == "kv%d" % ref_kv_pos:
-            st.ref_val_off = off + len("ref = ".encode())
+            st.ref_val_off = off + len(((kv_ref[3] if len(kv_ref) > 3 else "ref") + " = ").encode())
         text += t
         off += len(t.encode("utf-8"))
     if tgt == "none":
